@@ -1,8 +1,8 @@
 """C22 Connection event timing and supervision follow the connection parameters (validation structure only)."""
 from .lib.match import *
 
-SELECT = r'^bluetoe::link_layer::link_layer::(check_timing_paremeters|parse_timing_parameters_from_connect_request|parse_timing_parameters_from_connection_update_request|adv_received|timeout|setup_next_connection_event|handle_pending_ll_control)$'
-UNITS = lambda u: u in ('w_inst_ll',) or u.startswith('t_link_layer_ll_connecting') or u.startswith('t_link_layer_ll_connection')
+SELECT = r'^bluetoe::link_layer::delta_time::ppm$|^bluetoe::link_layer::link_layer::(check_timing_paremeters|parse_timing_parameters_from_connect_request|parse_timing_parameters_from_connection_update_request|adv_received|timeout|setup_next_connection_event|handle_pending_ll_control)$'
+UNITS = lambda u: u in ('w_inst_ll', 'lib_delta_time') or u.startswith('t_link_layer_ll_connecting') or u.startswith('t_link_layer_ll_connection')
 LL = 'bluetoe::link_layer::link_layer::'
 META = {
     'level': 'validation structure: every timing field parsed from a CONNECT_IND / LL_CONNECTION_UPDATE_IND has a lower and an upper bound in check_timing_paremeters (spec/ll_timing.json); '
@@ -20,6 +20,27 @@ def run(chk, facts, tier):
     chk.rule('enter-only-if-valid', 'state_ = connecting only if channels_.reset(..) && parse_timing_parameters_from_connect_request(..); connection_changed only if the update parameters validate, otherwise disconnect', floor=2)
     chk.rule('supervision', 'timeout(): the next event is planned only while time_since_last_event < connection_timeout_ (and, while connecting, fewer than 6 intervals passed); otherwise force_disconnect()', floor=1)
     chk.rule('window-widening', 'setup_next_connection_event widens start and end by ppm(cumulated_sleep_clock_accuracy_) of the elapsed time; the accuracy is the sum of the central\'s and the own sleep clock accuracy', floor=2)
+    chk.rule('ppm-no-narrow-overflow', 'delta_time::ppm: every product is evaluated in 64 bit, or dominating tests bound the operands so that the product fits the operation\'s width', floor=1)
+    for fn in variants(facts, 'bluetoe::link_layer::delta_time::ppm', chk):
+        muls = [n for n in fn.body.walk() if n.k == 'BinaryOperator' and n.o == '*']
+        if not muls:
+            chk.instance('ppm-no-narrow-overflow', fn, 'no multiplication', False, 'ppm() no longer scales its argument', key='ppm')
+        for n in muls:
+            w = n.d.get('w') or 0
+            ok = w >= 64
+            detail = ''
+            if not ok:
+                ats = guard_atoms(fn, n)
+                ub = 1
+                for x in n.c:
+                    x = strip_casts(x)
+                    b = x.v if x.v is not None else upper_bound(ats, lambda y, x=x: same_expr(y, x))
+                    if b is None:
+                        b = (1 << (x.d.get('w') or 32)) - 1
+                    ub *= b
+                ok = ub < (1 << w) if w else False
+                detail = 'the product %s is computed in %d bit but can reach %d: the window widening wraps around for long intervals between events' % (n.text()[:50], w, ub)
+            chk.instance('ppm-no-narrow-overflow', fn, '%s in %d bit' % (n.text()[:50], w), ok, '' if ok else detail, node=n, key='mul ' + n.text()[:30])
     for fn in variants(facts, LL + 'check_timing_paremeters', chk):
         rets = fn.returns()
         if not chk.require(len(rets) == 1, 'check_timing_paremeters left single-conjunction form'):
